@@ -107,7 +107,10 @@ TraceStep ==
                                               /\ (ev.um # -1 => cd.st.umask = ev.um)} IN
                   IF same = {} /\ ev.tr # "__end" THEN Note(2, {<<ev.tr, ev.i>>}) ELSE TRUE
                /\ cands' = {[cd EXCEPT !.x = IF ev.call.flag[1] = "sub"
-                                              THEN [dir |-> ev.call.p.parts, vcwd |-> <<>>, umask |-> cd.st.umask, nested |-> FALSE]
+                                              THEN [dir |-> ev.call.p.parts, vcwd |-> <<>>, umask |-> cd.st.umask, nested |-> FALSE,
+                                                    \* (a second view: its directory comes in the second operand of the pseudo call)
+                                                    dir2 |-> IF ev.call.n = 2 THEN ev.call.q.parts ELSE <<"none">>,
+                                                    vcwd2 |-> <<>>, umask2 |-> cd.st.umask]
                                               ELSE IF Len(ev.call.flag) > 1
                                               THEN [plan |-> [fn |-> ev.call.flag[2], k |-> ev.call.n], fc |-> EmptyFn]
                                               ELSE X0] : cd \in pre}
